@@ -59,7 +59,7 @@ func vfPublic(ms []skel.Method) []skel.Method {
 // every body panics, and nothing but types of the user's packages is
 // referenced.
 func VF_C17_parity() {
-	g := vfStr("getter", 6)
+	g := vfStr("getter", vfBound("tpl.getter", 6, 14))
 	t := vfStr("type", 3)
 	vfAssume(vfInRe(t, `\A\*?[A-Z][a-z]?\z`))
 	ctor, val, deco := "upkg.CtorMarker", "upkg.ValueMarker{}", "upkg.DecoMarker"
@@ -108,7 +108,8 @@ func VF_C17_parity() {
 			vfAssert(f.Panics, "the stub constructor panics")
 		}
 	}
-	for _, marker := range []string{"CtorMarker", "ValueMarker", "DecoMarker", "FnMarker"} {
+	// qualified, so that a getter that happens to be called CtorMarker is not mistaken for the symbol
+	for _, marker := range []string{"upkg.CtorMarker", "upkg.ValueMarker", "upkg.DecoMarker", "upkg.FnMarker"} {
 		vfAssert(strings.Contains(ntext, marker), "the normal output references the user's symbols")
 		vfAssert(!strings.Contains(stext, marker), "the stub references no value, constructor, decorator or function of the user's packages")
 	}
@@ -117,7 +118,7 @@ func VF_C17_parity() {
 
 // VF_C13_template: the getter methods of a service with getter G and type T.
 func VF_C13_template() {
-	g := vfStr("getter", 6)
+	g := vfStr("getter", vfBound("tpl.getter", 6, 14))
 	t := vfStr("type", 3)
 	vfAssume(vfInRe(t, `\A\*?[A-Z][a-z]?\z`))
 	hasType := vfBool("hasType")
